@@ -151,7 +151,15 @@ def r13_3(ctx, rep, roles, nl):
         src = cur[2][0] if ok else None
         ok = ok and src[0] == "call" and src[1].split("::")[-1] in ("flat_map", "filter_map", "map")
         if not ok:
-            rep.obligation(False, "C13/R13.3/current-shape", "the compared map is %s" % sym.fmt(cur)[:100], where(nl.fn))
+            # loop style: `let mut m = HashMap::new(); for id in self.live_nodes() { if let Some(st) = self.node_state(id) { m.insert(id.clone(), st.max_version()); .. } }`
+            okb = loop_built_current(rep, nl, eng, row, cur, LN, NSF)
+            if not okb:
+                rep.obligation(False, "C13/R13.3/current-shape", "the compared map is %s" % sym.fmt(cur)[:100], where(nl.fn))
+                continue
+            checked += 1
+            sends_todo = send_calls(row)
+            if sends_todo:
+                check_sent(rep, nl, eng, row, cur, NSF)
             continue
         base, clo = src[2][0], src[2][1]
         rep.obligation(base[0] == "call" and base[1] == LN, "C13/R13.3/current-source", "the compared map is not built from live_nodes(): %s" % sym.fmt(base)[:80],
@@ -180,46 +188,95 @@ def r13_3(ctx, rep, roles, nl):
             elif present is False:
                 rep.obligation(sym.is_none(ret), "C13/R13.3/current-absent", "a live id without state still contributes", where(nl.fn))
         checked += 1
-        # what is sent
-        for e in send_calls(row):
-            sent = T.resolve_locals(eng, row.store, e[2][1])
-            ok = sent[0] == "call" and sent[1].endswith("::collect")
-            inner = sent[2][0] if ok else None
-            ok = ok and inner[0] == "call" and inner[1].split("::")[-1] in ("flat_map", "filter_map")
-            if not ok:
-                rep.obligation(False, "C13/R13.3/sent-shape", "the published value is %s" % sym.fmt(sent)[:100], where(nl.fn))
-                continue
-            base2, clo2 = inner[2][0], inner[2][1]
-            rep.obligation(any(s == cur or (s[0] == "ptr" and T.resolve_locals(eng, row.store, s) == cur) for s in T.subterms(base2)) or
-                           cur in T.subterms(T.resolve_locals(eng, row.store, base2)),
-                           "C13/R13.3/sent-keys", "the published map is not built from the keys of the compared map", where(nl.fn),
-                           sample="sent keys = keys of current")
-            st = sym.St()
-            st.store = dict(row.store)
-            outs = list(sym.call_closure(eng, st, clo2, [("obj", ("S", "mid"))], 0, (nl.fn["id"], 1)))
-            for s2, ret in outs:
-                present = pred = predval = None
-                for c in s2.cond:
-                    if c[0] == "variant" and c[1][0] == "call" and c[1][1] == NSF and c[3]:
-                        present = c[2] == "Some"
-                    if c[0] == "variant" and T.last_field(c[1]) == ("configuration::ChitchatConfig", "extra_liveness_predicate") and c[3]:
-                        pred = c[2] == "Some"
-                    if c[0] == "truth" and c[1][0] == "call" and "Fn" in c[1][1]:
-                        predval = c[2]
-                want_some = present is True and (pred is False or (pred is True and predval is True))
-                rep.obligation(sym.is_some(ret) == want_some and (present is not None), "C13/R13.3/sent-filter",
-                               "entry published=%s when state present=%s, predicate configured=%s, predicate value=%s" % (sym.is_some(ret), present, pred, predval),
-                               where(nl.fn), sample="present=%s predicate=%s/%s -> %s" % (present, pred, predval, "listed" if want_some else "dropped"))
-                if sym.is_some(ret):
-                    tup = ret[3][0][1]
-                    k, v = T.field(tup, "0"), T.field(tup, "1")
-                    rep.obligation(k == ("obj", ("S", "mid")), "C13/R13.3/sent-key", "published under key %s" % sym.fmt(k)[:60], where(nl.fn))
-                    vok = v is not None and (v[0] == "agg" and v[1] == NS or T.mentions_field(v, "std::option::Option", "0")) and any(
-                        s[0] == "call" and s[1] == NSF for s in T.subterms(v))
-                    rep.obligation(vok, "C13/R13.3/sent-value", "published value is not a clone of the member's current state", where(nl.fn),
-                                   sample="value = node_state.clone()")
+        check_sent(rep, nl, eng, row, cur, NSF)
     rep.floor("compared-paths", checked, 2)
     rep.instance(checked)
+
+
+def check_sent(rep, nl, eng, row, cur, NSF):
+    """what is published: same keys as the compared map, predicate-filtered, clones of the current state"""
+    for e in send_calls(row):
+        sent = T.resolve_locals(eng, row.store, e[2][1])
+        ok = sent[0] == "call" and sent[1].endswith("::collect")
+        inner = sent[2][0] if ok else None
+        ok = ok and inner[0] == "call" and inner[1].split("::")[-1] in ("flat_map", "filter_map")
+        if not ok:
+            rep.obligation(False, "C13/R13.3/sent-shape", "the published value is %s" % sym.fmt(sent)[:100], where(nl.fn))
+            continue
+        base2, clo2 = inner[2][0], inner[2][1]
+        rep.obligation(any(s == cur or (s[0] == "ptr" and T.resolve_locals(eng, row.store, s) == cur) for s in T.subterms(base2)) or
+                       cur in T.subterms(T.resolve_locals(eng, row.store, base2)),
+                       "C13/R13.3/sent-keys", "the published map is not built from the keys of the compared map", where(nl.fn),
+                       sample="sent keys = keys of current")
+        st = sym.St()
+        st.store = dict(row.store)
+        outs = list(sym.call_closure(eng, st, clo2, [("obj", ("S", "mid"))], 0, (nl.fn["id"], 1)))
+        for s2, ret in outs:
+            present = pred = predval = None
+            for c in s2.cond:
+                if c[0] == "variant" and c[1][0] == "call" and c[1][1] == NSF and c[3]:
+                    present = c[2] == "Some"
+                if c[0] == "variant" and T.last_field(c[1]) == ("configuration::ChitchatConfig", "extra_liveness_predicate") and c[3]:
+                    pred = c[2] == "Some"
+                if c[0] == "truth" and c[1][0] == "call" and "Fn" in c[1][1]:
+                    predval = c[2]
+            want_some = present is True and (pred is False or (pred is True and predval is True))
+            rep.obligation(sym.is_some(ret) == want_some and (present is not None), "C13/R13.3/sent-filter",
+                           "entry published=%s when state present=%s, predicate configured=%s, predicate value=%s" % (sym.is_some(ret), present, pred, predval),
+                           where(nl.fn), sample="present=%s predicate=%s/%s -> %s" % (present, pred, predval, "listed" if want_some else "dropped"))
+            if sym.is_some(ret):
+                tup = ret[3][0][1]
+                k, v = T.field(tup, "0"), T.field(tup, "1")
+                rep.obligation(k == ("obj", ("S", "mid")), "C13/R13.3/sent-key", "published under key %s" % sym.fmt(k)[:60], where(nl.fn))
+                vok = v is not None and (v[0] == "agg" and v[1] == NS or T.mentions_field(v, "std::option::Option", "0")) and any(
+                    s[0] == "call" and s[1] == NSF for s in T.subterms(v))
+                rep.obligation(vok, "C13/R13.3/sent-value", "published value is not a clone of the member's current state", where(nl.fn),
+                               sample="value = node_state.clone()")
+
+
+def loop_built_current(rep, nl, eng, row, cur, LN, NSF):
+    """the compared map when it is built by a for loop with insert: every insert into the compared local adds (id.clone(),
+    node_state(id).max_version()) for an id of live_nodes() whose state is present; a path without state adds nothing"""
+    # the local that holds `cur`
+    holders = [root for root, v in row.store.items() if root[0] == "L" and v == cur]
+    if not holders:
+        return False
+    items = [(r, a) for r, a in T.collection_items(eng, nl.rows) if any(
+        c[0] == "variant" and c[1][0] == "call" and c[1][1].endswith("::next") and c[2] == "Some" and c[3] and any(
+            x[0] == "call" and x[1] == LN for x in T.subterms(T.resolve_locals(eng, r.store, c[1]))) for c in r.cond)]
+    if not items:
+        return False
+    ok_all = True
+    seen = set()
+    for r, adds in items:
+        present = None
+        elem = None
+        for c in r.cond:
+            if c[0] == "variant" and c[1][0] == "call" and c[1][1] == NSF and c[3]:
+                present = c[2] == "Some"
+                elem = T.resolve_locals(eng, r.store, c[1][2][1])
+        seen.add(present)
+        if present:
+            ok = len(adds) == 1 and adds[0][1] is not None
+            if ok:
+                k, v = adds[0]
+                el = elem
+                while el[0] in ("ptr", "obj") and el[1][0] == "D" and (el[0] == "obj" or not el[2]):
+                    el = el[1][1]
+                kok = k == el or (k[0] == "agg" and k[1] == "types::ChitchatId" and all(fv == sym.proj(el, F("types::ChitchatId", fn_)) or fv == ("proj", ("obj", ("D", el)), F("types::ChitchatId", fn_)) for fn_, fv in k[3]))
+                rep.obligation(kok, "C13/R13.3/current-key", "the compared map is keyed by %s, not by the full member id" % sym.fmt(k)[:80], where(nl.fn),
+                               sample="key = member id (clone)")
+                vok = T.last_field(v) == (NS, "max_version") and any(x[0] == "call" and x[1] == NSF for x in T.subterms(v))
+                rep.obligation(vok, "C13/R13.3/current-value", "the compared value is %s, not the member's max_version" % sym.fmt(v)[:60], where(nl.fn),
+                               sample="value = node_state.max_version()")
+                ok = kok and vok
+            ok_all = ok_all and ok
+        elif present is False:
+            rep.obligation(not adds, "C13/R13.3/current-absent", "a live id without state still contributes", where(nl.fn))
+            ok_all = ok_all and not adds
+        else:
+            ok_all = False
+    return ok_all and seen == {True, False}
 
 
 def r13_4(ctx, rep, roles):
